@@ -406,6 +406,9 @@ func runC04(r *core.Run) {
 			return core.Outcome{Class: fmt.Sprint("blocks=", c.N < 0), Nontrivial: c.N >= 2 || c.N < -1, Evals: 4}
 		})
 
+	interleavedReadersFor(r, []string{"bed"})
+	bigFiles(r, "bed", []int{3, 4, 5, 6, 7, 8, 9, 10, 11, 12})
+
 	r.Bound("marked-offsets", markBounds+"; fields Chrom / Name (N=4) and Strand-less N=12 Name, bytes '#', '\"'"+core.Pick(r, "", " and ',', ' ', 0x00, 0xFF")+"; '#' never first in Chrom")
 	core.Clause(r, "marked-offsets", core.Opts{Rule: "a format-vocabulary byte at EVERY offset of a long Chrom or Name (it meets every internal buffer boundary of the reader); written, read back as the middle line of three; non-trivial = all"},
 		genMarks([]string{"chrom", "name", "name12"}, core.Pick(r, []int{'#', '"'}, []int{'#', '"', ',', ' ', 0x00, 0xFF}), func(f string, b, off int) bool { return f == "chrom" && b == '#' && off == 0 }),
